@@ -249,12 +249,13 @@ pub fn property() -> Property {
             "the empty quoted identifier \"\" and control characters inside raw strings are accepted (every key and every string must have a spelling)".into(),
             "numbers inside literals stay in the exactly-parsed numeral domain (C08 covers the rest)".into(),
         ],
+        minimise: None,
         subs: vec![
-            Sub::Bytes(BytesSub { name: "raw", f: raw, max_len: 64, quick: Budget { threads: 8, cases: 6000 }, thorough: Budget { threads: 16, cases: 300_000 } }),
-            Sub::Bytes(BytesSub { name: "literal", f: literal, max_len: 400, quick: Budget { threads: 8, cases: 5000 }, thorough: Budget { threads: 16, cases: 200_000 } }),
-            Sub::Bytes(BytesSub { name: "quoted", f: quoted, max_len: 96, quick: Budget { threads: 8, cases: 5000 }, thorough: Budget { threads: 16, cases: 200_000 } }),
-            Sub::Bytes(BytesSub { name: "unquoted", f: unquoted, max_len: 48, quick: Budget { threads: 4, cases: 3000 }, thorough: Budget { threads: 16, cases: 100_000 } }),
-            Sub::Bytes(BytesSub { name: "bodies", f: bodies, max_len: 64, quick: Budget { threads: 8, cases: 8000 }, thorough: Budget { threads: 16, cases: 400_000 } }),
+            Sub::Bytes(BytesSub { name: "raw", f: raw, max_len: 64, quick: Budget { threads: 8, cases: 6000 }, thorough: Budget { threads: 16, cases: 300_000 }, keep_unreproducible: false }),
+            Sub::Bytes(BytesSub { name: "literal", f: literal, max_len: 400, quick: Budget { threads: 8, cases: 5000 }, thorough: Budget { threads: 16, cases: 200_000 }, keep_unreproducible: false }),
+            Sub::Bytes(BytesSub { name: "quoted", f: quoted, max_len: 96, quick: Budget { threads: 8, cases: 5000 }, thorough: Budget { threads: 16, cases: 200_000 }, keep_unreproducible: false }),
+            Sub::Bytes(BytesSub { name: "unquoted", f: unquoted, max_len: 48, quick: Budget { threads: 4, cases: 3000 }, thorough: Budget { threads: 16, cases: 100_000 }, keep_unreproducible: false }),
+            Sub::Bytes(BytesSub { name: "bodies", f: bodies, max_len: 64, quick: Budget { threads: 8, cases: 8000 }, thorough: Budget { threads: 16, cases: 400_000 }, keep_unreproducible: false }),
         ],
     }
 }
